@@ -15,7 +15,7 @@ fn type_names(code: &str) -> Vec<String> {
             "{" => depth += 1,
             "}" => depth -= 1,
             "pub" if depth == 0 && i + 2 < toks.len() && ["struct", "enum", "type"].contains(&toks[i + 1]) => {
-                let n = toks[i + 2].trim_end_matches(';').trim_start_matches("r#").to_string();
+                let n = toks[i + 2].trim_end_matches(';').to_string();
                 if !names.contains(&n) {
                     names.push(n);
                 }
@@ -55,10 +55,11 @@ fn main() {
         let names = type_names(&code);
         let mut probe = String::from("pub fn type_report() -> Vec<String> { let mut v = Vec::new();\n");
         for n in &names {
-            writeln!(probe, "    v.push(crate::probe_line!({n:?}, {n}));").unwrap();
+            writeln!(probe, "    v.push(crate::probe_line!({:?}, {n}));", n.trim_start_matches("r#")).unwrap();
         }
         probe.push_str("    v }\n");
         let root = exported(&grammar).into_iter().next().expect("an exported rule");
+        let root = if ["type", "fn", "loop", "match", "mod"].contains(&root.as_str()) { format!("r#{root}") } else { root };
         writeln!(probe, "pub fn parse_debug(s: &str) -> String {{ use peginator::PegParser; format!(\"{{:?}}\", {root}::parse(s)) }}").unwrap();
         fs::write(out.join(format!("{name}_probe.rs")), probe).unwrap();
         let hashes = "#".repeat(4);
